@@ -551,6 +551,15 @@ func (a *adversary) onPropose(nd *Node, p *hotstuff.ProposeMsg) bool {
 			}
 		}
 	}
+	if has(acts, "aggswap") && p.AggregateQC != nil && a.chance(0.8) {
+		if agg, ok := a.swapInAggregate(nd, *p.AggregateQC); ok {
+			for _, id := range a.others(nd) {
+				a.sendTo(nd, id, "propose", hotstuff.ProposeMsg{ID: nd.id, Block: b, AggregateQC: &agg})
+			}
+			a.fired("aggswap")
+			return true
+		}
+	}
 	if has(acts, "aggtwin") && p.AggregateQC != nil && a.chance(0.8) {
 		// the leader's own entry of the aggregate attests a relabelled copy of the genuine high QC (same bytes,
 		// same view, signer labels rotated): honestly signed by the leader, invalid as a certificate
@@ -812,6 +821,45 @@ func (a *adversary) otherQuorum(nd *Node, qc hotstuff.QuorumCert) (hotstuff.Quor
 		return qc, false
 	}
 	return alt, true
+}
+
+// swapInAggregate replaces the QC listed for one honest signer by a QC for the same block and view whose signature
+// is spoiled (the aggregate signature stays as it is).
+func (a *adversary) swapInAggregate(nd *Node, agg hotstuff.AggregateQC) (hotstuff.AggregateQC, bool) {
+	w := a.w
+	qcs := map[hotstuff.ID]hotstuff.QuorumCert{}
+	var victim hotstuff.ID
+	for id := 1; id <= w.plan.N; id++ {
+		qc, ok := agg.QCs()[hotstuff.ID(id)]
+		if !ok {
+			continue
+		}
+		qcs[hotstuff.ID(id)] = qc
+		honest := true
+		for _, b := range w.plan.Byz {
+			honest = honest && b.ID != id
+		}
+		if honest && (victim == 0 || (qc.Signature() != nil && qcs[victim].Signature() == nil)) {
+			victim = hotstuff.ID(id)
+		}
+	}
+	if victim == 0 {
+		return agg, false
+	}
+	old := qcs[victim]
+	var bad hotstuff.QuorumSignature
+	if old.Signature() != nil {
+		if bad = truncSig(old.Signature(), 1); bad == nil {
+			bad = relabelSig(old.Signature(), w.plan.N)
+		}
+	} else {
+		bad = a.ownSig(nd, []byte("nothing"))
+	}
+	if bad == nil {
+		return agg, false
+	}
+	qcs[victim] = hotstuff.NewQuorumCert(bad, old.View(), old.BlockHash())
+	return hotstuff.NewAggregateQC(qcs, agg.Sig(), agg.View()), true
 }
 
 // attestInAggregate rebuilds an aggregate certificate so that the Byzantine replica's own entry attests qc.
@@ -1132,6 +1180,17 @@ func (a *adversary) onNewView(nd *Node, to hotstuff.ID, si *hotstuff.SyncInfo) b
 			return true
 		}
 	}
+	if agg, ok := si.AggQC(); ok && has(acts, "aggswap") && a.chance(0.8) {
+		if sw, ok := a.swapInAggregate(nd, agg); ok {
+			fsi := *si
+			fsi.SetAggQC(sw)
+			for _, id := range a.others(nd) {
+				a.sendTo(nd, id, "newview", hotstuff.NewViewMsg{ID: nd.id, SyncInfo: fsi, FromNetwork: true})
+			}
+			a.fired("aggswap")
+			return true
+		}
+	}
 	if agg, ok := si.AggQC(); ok && has(acts, "aggtwin") && a.chance(0.8) {
 		if tw, ok := a.twinInAggregate(nd, agg); ok {
 			fsi := *si
@@ -1251,6 +1310,39 @@ func (a *adversary) onFetch(peer, asker *Node, h hotstuff.Hash) *hotstuff.Block 
 	a.w.reg.add(lie, peer)
 	a.lies[h] = lie
 	return lie
+}
+
+// onFetchMalformed: a Byzantine peer answers a block request with something that is not a complete block.
+func (a *adversary) onFetchMalformed(peer, asker *Node, h hotstuff.Hash) *hotstuffpb.Block {
+	acts := a.acts(peer)
+	if acts == nil || !has(acts, "liefetch") || !a.chance(peer.byz.Rate) || !a.chance(0.35) {
+		return nil
+	}
+	real := a.w.reg.get(h)
+	switch a.intn(5) {
+	case 0:
+		return &hotstuffpb.Block{}
+	case 1:
+		if real != nil {
+			pb := hotstuffpb.BlockToProto(real)
+			pb.QC = nil
+			return pb
+		}
+	case 2:
+		if real != nil {
+			pb := hotstuffpb.BlockToProto(real)
+			pb.Parent = pb.Parent[:len(pb.Parent)/2]
+			return pb
+		}
+	case 3:
+		if real != nil {
+			pb := hotstuffpb.BlockToProto(real)
+			pb.Timestamp = nil
+			pb.Commands = nil
+			return pb
+		}
+	}
+	return &hotstuffpb.Block{View: uint64(a.roll() % 50), Proposer: uint32(peer.id)}
 }
 
 func (a *adversary) inject(in Inject) { a.injectWire(in) }
